@@ -41,13 +41,26 @@ structure Tables where
   tagByName : Table
   enums     : EnumIndex
   masks     : MaskIndex
+  /-- `true` = the readers before /repo a1c0e70, whose `Tag()` parsed the `0x` form as a SIGNED 32-bit
+      number (kept so that what was wrong with it stays a theorem). -/
+  oldTags   : Bool := false
+
+/-- `Tag()` on the raw tag text. -/
+def Tables.tagOfText (T : Tables) (s : List Nat) : Int :=
+  if T.oldTags then tagFromTextOld T.tagByName s else tagFromText T.tagByName s
 
 /-- `time.Time.Format(time.RFC3339)` and `time.Parse(time.RFC3339, ·)` (then `.Unix()`), on whole
-    seconds.  Trusted standard-library behaviour: a PARAMETER, with its round-trip law as an explicit
-    hypothesis of the theorems (`Rfc3339.Lawful` in `Lemmas/LexLemmas.lean`). -/
+    seconds, and the test `0 ≤ t.Local().Year() ≤ 9999` the readers apply to a parsed instant (since
+    /repo df9dac3: a zone offset can move an accepted text out of what `Format` can express; a reader
+    without the test is `inYears := fun _ => true`).  Trusted standard-library behaviour: a PARAMETER,
+    with its laws as an explicit hypothesis of the theorems (`Rfc3339.Lawful` in `Lemmas/LexLemmas.lean`). -/
 structure Rfc3339 where
-  format : Int → Str
-  parse  : Str → Option Int
+  format  : Int → Str
+  parse   : Str → Option Int
+  inYears : Int → Bool
+
+/-- 0000-01-01T00:00:00Z as Unix seconds (`inYears` in the UTC zone is `[minEpoch0, maxEpoch]`). -/
+def minEpoch0 : Int := -62167219200
 
 /-- 0001-01-01T00:00:00Z and 9999-12-31T23:59:59Z as Unix seconds. -/
 def minEpoch : Int := -62135596800
@@ -347,9 +360,8 @@ def XCur.rawTag (c : XCur) : Str :=
   | none => []
   | some (n, a) => if n != sTTLV then n else (attr sTag a).getD []
 
-/-- `Tag()`: 0 when absent, malformed or unknown; `0x…` is `ParseInt(·, 16, 32)` (so it may be negative
-    or exceed 24 bits). -/
-def XCur.tag (T : Tables) (c : XCur) : Int := tagFromText T.tagByName c.rawTag
+/-- `Tag()`: 0 when absent, malformed, unknown or zero; `0x…` is `ParseUint(·, 16, 24)`. -/
+def XCur.tag (T : Tables) (c : XCur) : Int := T.tagOfText c.rawTag
 
 /-- `Type()`. -/
 def XCur.ty (c : XCur) : Nat :=
@@ -410,7 +422,11 @@ def xInteger (s : Str) : Res Int :=
 def xLong (s : Str) : Res Int := ofOpt (goParseInt 64 s)
 def xBool (s : Str) : Res Bool := ofOpt (parseBool s)
 def xBytes (s : Str) : Res Bytes := ofOpt (hexDec s)
-def xDate (R : Rfc3339) (s : Str) : Res Int := ofOpt (R.parse s)
+/-- `time.Parse`, `.Local()`, then the year test. -/
+def xDate (R : Rfc3339) (s : Str) : Res Int :=
+  match R.parse s with
+  | some v => if R.inYears v then .ok v else .err .range
+  | none => .err .other
 def xEnum (byName : Table) (s : Str) : Res Nat := ofOpt (enumFromTextReader byName s)
 def xInterval (s : Str) : Res Nat := ofOpt (goParseUint 32 s)
 def xText (s : Str) : Res Bytes := .ok (bytesOfStr s)
@@ -574,7 +590,7 @@ def JCur.ty (c : JCur) : Nat :=
 /-- `Tag()`. -/
 def JCur.tag (T : Tables) (c : JCur) : Int :=
   match c.get sTag with
-  | some (.str s) => tagFromText T.tagByName s
+  | some (.str s) => T.tagOfText s
   | _ => 0
 
 /-- `Next()` after a successful getter. -/
@@ -641,7 +657,7 @@ def jDate (R : Rfc3339) : Option JVal → Res Int
       if epoch < 0 then .err .range
       else if epoch > maxEpoch then .err .range
       else .ok epoch
-  | some (.str s) => ofOpt (R.parse s)
+  | some (.str s) => xDate R s
   | _ => .err .other
 
 def jInterval : Option JVal → Res Nat
